@@ -488,11 +488,22 @@ def gen_jobs(ctx):
             if s is not None and s not in ins:
                 ins.append(s)
         cases.append(("small", "rand%d" % i, text, ins))
-    for i in range(n_small // 3):
-        r = gramgen.unary_nullable_grammar(rng)
+    from lib import glrcases
+    for e in glrcases.corpus():
+        ins = [e["alphabet"] * k for k in range(e["maxlen"] + 1)] if len(e["alphabet"]) == 1 else \
+            list(gramgen.all_strings(list(e["alphabet"]), 4))
+        cases.append(("corpus", e["name"], e["text"], ins))
+    for i in range(max(n_small // 3, 60)):
+        # nullable rules on top of an ambiguous/recursive symbol: the GLR revisit sets
+        # (several already-processed heads traversing one state) are exercised here
+        r = gramgen.unary_nullable_grammar(rng, two_nts=True if i % 2 else None)
         if r is None:
             continue
-        cases.append(("unary", "unary%d" % i, r[1], ["b" * k for k in range(0, 6)]))
+        cases.append(("unary", "unary%d" % i, r[1], ["b" * k for k in range(0, 8)]))
+    for i in range(20 if quick else 200):
+        r = gramgen.nullable2_grammar(rng)
+        if r is not None:
+            cases.append(("nullable2", "null2_%d" % i, r[1], list(gramgen.all_strings(["a", "b"], 4))))
     n_wide = 50 if quick else 500
     for i in range(n_wide):
         for gen, fam in ((gen_operator, "operators"), (gen_statements, "statements"),
